@@ -44,7 +44,8 @@ def _check_with_undecided(mod, prop: str, tier: str, prog):
                 if fr.f_code.co_name == "check" and fr.f_globals.get("__name__") == mod.__name__ and i + 1 < len(frames):
                     nxt = frames[i + 1]
                     nm, mn = nxt.f_code.co_name, nxt.f_globals.get("__name__", "")
-                    if mn.startswith("sa.rules.") and getattr(sys.modules.get(mn), nm, None) is not None and nxt.f_code.co_argcount >= 2:
+                    if mn.startswith("sa.rules.") and getattr(sys.modules.get(mn), nm, None) is not None \
+                            and nxt.f_code.co_argcount >= 2 and nxt.f_code.co_varnames[0] == "run":
                         target = (mn, nm)
                     break
             if target is None or target in skipped or len(skipped) >= 8:
